@@ -79,9 +79,17 @@ Proof. exact ex_rename_routed_l. Qed.
 Print Assumptions ex_rename_routed.
 
 Theorem ex_addvalue_routed :
-  snd (mstep (run (firstn 9 ex_ops)) (MEnumAddValue 0 101 8)) = [-1; K_ENUM; K_SIG; K_MSG].
+  snd (mstep (run (firstn 9 ex_ops)) (MEnumAddValue 0 101 8 None)) = [-1; K_ENUM; K_SIG; K_MSG].
 Proof. exact ex_addvalue_routed_l. Qed.
 Print Assumptions ex_addvalue_routed.
+
+(* the per-bus worker of the example reads the shared attribute definition, type, unit and enum *)
+Theorem ex_export : export_bus (run ex_ops) 0 =
+  [[500000; 1; 2; 3; 0]; [0]; [0; 7]; [10; 1; 0]; [0]; [0; 7]; [3; 1; 5; 1; 1; 2; 3]; [0]; [0; 7];
+   [1; 0]; [0]; [0; 7]; [1025]; [0; 0; -1]; [8; 0; 0; 255; 1; 0]; [86];
+   []; [1025]; [-1; -1; 0]; [100]; [11; 2; -1; 0]; []].
+Proof. exact ex_export_l. Qed.
+Print Assumptions ex_export.
 
 (* the model contains the writes: with a hint left set (unreachable) the same operations write *)
 Theorem ro_writes_when_hint_set : exists s q, fst (ro s q) <> s.
